@@ -328,19 +328,29 @@ def extend(rep, pid, tier, r):
         case = gen_wrapper_case(r, tier, canonical=(pid in ('C05',) or r.random() < 0.7))
         try:
             w, data, aff = build_wrapper(case)
+            # header variants: which of sform / qform is coded (files written by other tools often
+            # carry a qform only); the image goes through bytes so that its affine is the header's
+            hk = r.choice(['s', 's', 's', 'q', 'sq', 'none'])
+            if hk != 's' and case.get('data_kind') != 'scaled_file' and not case.get('oblique'):
+                from . import check_wrapcorr
+                w = check_wrapcorr.with_header_variant(w.nii_img, hk, aff)
+                aff = w.nii_img.affine.copy()
+                data = np.asanyarray(w.nii_img.dataobj)
+                case['hdr_kind'] = hk
         except Exception as e:
             rep.count('wrapper/build_failed')
             continue
         shape = case['shape']
         for dim in range(len(shape)):
             rep.evaluations += 1
-            region = 'wrapper:' + SM.subset_region(case, dim) + (':oblique' if case.get('oblique') else '')
+            region = 'wrapper:' + SM.subset_region(case, dim) + (':oblique' if case.get('oblique') else '') + \
+                (':hdr-' + case['hdr_kind'] if case.get('hdr_kind') else '')
             rep.count(region)
             rep.nontriv([case, dim])
             rep.sample({'suite': 'wrapper', 'case': case, 'dim': dim}, cap=2)
             pieces, fs = split_oracles(case, w, data, aff, dim)
             fm = {}
-            if pieces is not None and len(pieces) == shape[dim] and shape[dim] >= 2 and \
+            if pieces is not None and len(pieces) == shape[dim] and shape[dim] >= 1 and \
                     (dim == case['sd'] or dim >= 3):
                 fm = merge_back_oracles(case, w, data, aff, dim, pieces)
                 if pid == 'C03':
@@ -351,3 +361,6 @@ def extend(rep, pid, tier, r):
             allf = list(fs.get(pid, [])) + list(fm.get(pid, []))
             for f in allf[:1]:
                 rep.failure(f, {'tag': region, 'suite': 'wrapper', 'case': case, 'dim': dim})
+    if pid in ('C03', 'C04', 'C05'):
+        from . import check_wrapcorr
+        check_wrapcorr.corr(rep, pid, tier, r)
